@@ -259,6 +259,29 @@ def run_xsem(hv, sxfile, inputs, steps=None, depth=None, timeout=300):
     return res, ''
 
 
+def run_xsemtrace(hv, sxfile, inputs, steps=None, depth=None, timeout=300):
+    """the spec run with its call sequence (hvmain xsemtrace): -> list of (calls [names], result dict as run_xsem)"""
+    cmd = [hv, 'xsemtrace', sxfile]
+    if steps is not None:
+        cmd += [str(steps), str(depth if depth is not None else 2000)]
+    rc, out, err = _run(cmd, os.path.dirname(sxfile), ('\n'.join(hexline(i) for i in inputs) + '\n').encode(), timeout, big_stack=True)
+    lines = out.decode().strip().split('\n') if out.strip() else []
+    if rc != 0 or len(lines) != len(inputs):
+        return None, 'xsemtrace rc=%d %s %s' % (rc, out[-200:], err[-300:])
+    res = []
+    for l in lines:
+        left, right = l.split(' | ', 1)
+        calls = [c for c in left[len('calls '):].split(',') if c]
+        if right.startswith('behaviour '):
+            f = dict(x.split('=', 1) for x in right.split()[1:])
+            r = {'kind': 'behaviour', 'exit': int(f['exit']), 'consumed': int(f['consumed']), 'out': parse_out(f.get('out', ''))}
+        else:
+            w = right.split(' ', 2)
+            r = {'kind': 'undef', 'reason': w[1], 'detail': w[2] if len(w) > 2 else ''}
+        res.append((calls, r))
+    return res, ''
+
+
 def run_isa(hv, binfile, inputs, maxsteps, layout=None, timeout=900):
     """-> list of dicts {end, code, steps, consumed, minsp, out, mon}"""
     cmd = [hv, 'xisa', binfile, str(maxsteps)]
